@@ -10,13 +10,79 @@ namespace Elys.Blocks.C18
 /-- the environments validation and the standard wiring guarantee, whatever users and the oracle do -/
 def Guaranteed (e : Env) : Prop :=
   e.usdcEntry = true ∧ e.revenueAddrValid = true ∧ e.blocksPerYearNonzero = true ∧ e.bankSendFails = false ∧
-  e.edenPriceZero = false ∧ e.mintFails = false
+  e.edenPriceZero = false
 
 /-- with the repaired conversion, masterchef's end-blocker succeeds in every guaranteed environment — in particular
 whether or not a fee conversion fails (oracle outage, dust, emptied pools) -/
+theorem edenMint_ok (a : Int) : edenMint true a = .ok () := by
+  unfold edenMint mintCoins
+  simp only [if_true]
+  split
+  · rename_i h; simp only [show ¬ (a.tdiv P ≤ 0) by omega, if_false]
+  · rfl
+
+theorem edenMints_ok (as : List Int) : edenMints true as = .ok () := by
+  induction as with
+  | nil => rfl
+  | cons a as ih => simp only [edenMints, edenMint_ok, ih]
+
+/-- … and whatever the pools' Eden allocations of the block are (dust pools, tiny yearly amounts, any Eden price) -/
 theorem ok_under (e : Env) (h : Guaranteed e) : endBlockOutcome true e = .ok () := by
-  obtain ⟨h1, h2, h3, h4, h5, h6⟩ := h
-  simp [endBlockOutcome, h1, h2, h3, h4, h5, h6]
+  obtain ⟨h1, h2, h3, h4, h5⟩ := h
+  simp [endBlockOutcome, h1, h2, h3, h4, h5, edenMints_ok]
+
+/-- before 932554d exactly the allocations strictly between 0 and 1 base unit halted the chain -/
+theorem edenMint_old_fails_iff (a : Int) : edenMint false a = .error .mint ↔ 0 < a ∧ a < P := by
+  unfold edenMint mintCoins P
+  simp only [Bool.false_eq_true, if_false]
+  by_cases ha : a > 0
+  · have hd : a.tdiv 1000000000000000000 = a / 1000000000000000000 := Int.tdiv_eq_ediv_of_nonneg (by omega)
+    simp only [ha, if_true, hd]
+    by_cases hw : a / 1000000000000000000 ≤ 0
+    · simp only [hw, if_true]
+      constructor
+      · intro _; exact ⟨trivial, by omega⟩
+      · intro _; trivial
+    · simp only [hw, if_false]
+      constructor
+      · intro h; cases h
+      · rintro ⟨_, h1⟩; exfalso; omega
+  · simp only [ha, if_false]
+    constructor
+    · intro h; cases h
+    · rintro ⟨h0, _⟩; exact h0.elim
+
+/-- WITNESS (before 932554d): a pool with Eden rewards on and an allocation of half a base unit — what is left when liquidity
+providers have exited all but dust (scenario c18-eden-rewards-dust-pool) -/
+theorem eden_dust_halt_witness :
+    let e : Env := { usdcEntry := true, revenueAddrValid := true, blocksPerYearNonzero := true, conversionFails := false,
+                     bankSendFails := false, edenPriceZero := false, edenAllocs := [3 * P, P / 2] }
+    endBlockOutcome true e false = .error .mint ∧ endBlockOutcome true e true = .ok () := by
+  constructor <;> rfl
+
+/-- the epochs begin-blocker survives the estaking hook whatever the provider's vesting claim does (since 7acf6c7) … -/
+theorem epoch_start_ok (claim : Except Unit Unit) : epochStart [estakingHook true claim] = .ok () := by
+  simp [epochStart, estakingHook]
+
+/-- … WITNESS: before, a failing claim (zero-block schedule, unpayable vesting denom, full vesting list, refused recipient) panicked -/
+theorem epoch_start_halt_witness : epochStart [estakingHook false (.error ())] = .error () := by rfl
+
+/-- with the validated portion the protocol's remainder is never negative, for every amount … -/
+theorem afterProvider_nonneg (c p : Int) (hc : 0 ≤ c) (hp : portionValid true p = true) : 0 ≤ afterProvider c p := by
+  unfold portionValid at hp
+  simp only [Bool.not_true, Bool.false_or, Bool.and_eq_true, decide_eq_true_eq] at hp
+  obtain ⟨hp0, hp1⟩ := hp
+  unfold afterProvider
+  have hcp : 0 ≤ c * p := Int.mul_nonneg hc hp0
+  have h1 : c * p ≤ c * P := Int.mul_le_mul_of_nonneg_left hp1 hc
+  rw [Int.tdiv_eq_ediv_of_nonneg hcp]
+  unfold P at *
+  generalize c * p = x at *
+  omega
+
+/-- … WITNESS: the validation before f5b320c accepted a portion of 2.5, which leaves −1.5 coins of 1 -/
+theorem portion_halt_witness : portionValid false (5 * P / 2) = true ∧ portionValid true (5 * P / 2) = false ∧ afterProvider P (5 * P / 2) < 0 := by
+  refine ⟨by decide, by decide, by decide⟩
 
 /-- each hypothesis is needed: dropping it halts -/
 theorem usdc_needed (e : Env) (h : e.usdcEntry = false) : endBlockOutcome true e = .error .noUsdc := by
@@ -34,7 +100,7 @@ theorem blocksPerYear_needed (e : Env) (h0 : e.usdcEntry = true) (hb : e.bankSen
 is an oracle pool with a missing price — halted the chain -/
 theorem conversion_halt_witness :
     let e : Env := { usdcEntry := true, revenueAddrValid := true, blocksPerYearNonzero := true, conversionFails := true,
-                     bankSendFails := false, edenPriceZero := false, mintFails := false }
+                     bankSendFails := false, edenPriceZero := false, edenAllocs := [] }
     endBlockOutcome false e = .error .conversion ∧ endBlockOutcome true e = .ok () := by
   constructor <;> rfl
 
@@ -44,7 +110,7 @@ theorem tx_isolated {σ : Type} (s : σ) (tx : σ → Except Unit σ) (h : tx s 
 
 /-- non-vacuity -/
 example : Guaranteed { usdcEntry := true, revenueAddrValid := true, blocksPerYearNonzero := true, conversionFails := true,
-                       bankSendFails := false, edenPriceZero := false, mintFails := false } := by
+                       bankSendFails := false, edenPriceZero := false, edenAllocs := [P / 2, 0, 7 * P] } := by
   simp [Guaranteed]
 
 end Elys.Blocks.C18
